@@ -440,6 +440,9 @@ class Request(Message):
         # => manually reject one always invalid URI: empty
         if len(self.uri) == 0:
             raise InvalidRequestLine(bytes_to_str(line_bytes))
+        # a bare CR or LF (or NUL) is a line terminator to lenient peers
+        if RFC9110_5_5_INVALID_AND_DANGEROUS.search(self.uri):
+            raise InvalidRequestLine(bytes_to_str(line_bytes))
 
         try:
             parts = split_request_uri(self.uri)
